@@ -201,7 +201,8 @@ CLAIMS = {
        "harness serves this property in the quick tier."
        "Added later: Loader::handle_scalar_event attaches the scalar's own location (the C11 typing obligation, now also run here, with a YAML replay over every scalar style); clause reports / records keep the outcome's own values (see C09)."
        "Added later: system_mark_to_location copies libyaml's line / column unchanged and Parser::next returns the START mark of the event it converted."
-       "Added later: accumulate / accumulate_map / retrieve_index obligations of C01 also run here (what is reported as the value reached).",
+       "Added later: accumulate / accumulate_map / retrieve_index obligations of C01 also run here (what is reported as the value reached)."
+       " Added last: the {path, value} pairs of reports - scalars are rendered from their own payload by the lossless constructor of their kind (Number::from(i64) / Number::from_f64), no cast or rounding; replay resolves every reported pair of numbers of every size class in the document.",
   design="0b/C10"),
  "C11": dict(
   text="Bounded symbolic execution (MIR; std parsers modelled as fallible calls; z3+cvc5) of the loader's scalar typing: "
@@ -312,7 +313,8 @@ CLAIMS = {
        "the four output formats."
        "Added later: every rule recorded by the structured test reporter is an entry of get_by_rules' OWN result (a loop over a re-keyed or filtered copy refutes the obligation); rule names differing only in letter case are in the native replay. This obligation had been vacuous for a while (see DESIGN 0.4) - a generic zero-count guard now makes such an obligation inconclusive."
        "Added later: build_test_suite's failure counter grows by number_of_failures() = len(failed_rules) per test case (renderings-agree replay: json / junit failure counts for 0..3 unmet expectations per case)."
-       "Added later: get_test_data makes one test case per spec (fold over all specs); validate's scalar typing obligations also run here.",
+       "Added later: get_test_data makes one test case per spec (fold over all specs); validate's scalar typing obligations also run here."
+       " Added last: JUnit case marks (every passed rule one case marked Pass, every failed rule one marked Fail, under its own name); renderings replay now has unmet expectations on rules that evaluate to SKIP.",
   design="4/C16"),
  "C17": dict(
   text="PathAwareValue::merge decided twice: by Kani/CBMC on one-entry maps with symbolic integer values (equal keys: MultipleValues "
@@ -327,7 +329,8 @@ CLAIMS = {
   note="NOT covered: reading the -i files, that `keys` and `values` stay aligned for `keys` "
        "filters beyond the per-entry push, list merging semantics (extend), equality of verdicts with the pre-merged document."
        "Added later: has_a_supported_extension is exactly `some extension is a suffix of the name` (callers hand it absolute paths for --data and base names for -i); replay over unusual parameter file names."
-       "Added later: walk_dir is the unfiltered walkdir traversal of the base given (symlink replay).",
+       "Added later: walk_dir is the unfiltered walkdir traversal of the base given (symlink replay)."
+       " Added last: validate's evaluate_rule hands evaluate_against_data_input its own input parameters / data files / flags unchanged (no per-run decision to drop the parameters); replay with a list / scalar document next to a map document under -i.",
   design="0b/C17"),
  "C18": dict(
   text="Bounded model checking of the small built-ins: substring on strings of 0..3 bytes (thorough: 4) built from symbolic 1/2/3-byte "
